@@ -133,14 +133,15 @@ Section C03.
     intros Hr H. cbn [Tracker.tstep] in H. inversion H; subst; clear H.
     pose proof (Inv_auto_waste _ _ (reach_Inv _ _ _ _ _ Hr)) as HI. destruct HI as [_ _ _ H4 _].
     rewrite Forall_forall in H4. rewrite epochs_auto_waste in *.
-    rewrite (filter_all_true _ _ H4).
+    set (W := ins_all (filter (expired c (epochs st)) (live st)) (wasted st)) in *.
+    assert (H4' : forall x, In x W -> expired c (epochs st) x = true) by exact H4.
+    rewrite (filter_all_true _ W H4').
     split; [|split].
-    - intro t. unfold auto_waste. cbn [wasted set_wasted set_live]. rewrite In_ins_all, filter_In, in_app_iff. split.
-      + intros [[H1 H2]|H1]; [auto|]. split; [auto|]. apply H4. unfold auto_waste. cbn [wasted set_wasted set_live].
-        apply In_ins_all. right; exact H1.
+    - intro t. unfold W. rewrite In_ins_all, filter_In, in_app_iff. split.
+      + intros [[H1 H2]|H1]; [auto|]. split; [auto|]. apply H4'. unfold W. apply In_ins_all. right; exact H1.
       + intros [[H1|H1] H2]; auto.
     - reflexivity.
-    - cbn [wasted set_delivered set_wasted]. apply filter_all_false. intros t Ht. rewrite (H4 t Ht). reflexivity.
+    - cbn [wasted set_delivered set_wasted]. apply filter_all_false. intros t Ht. rewrite (H4' t Ht). reflexivity.
   Qed.
 
   Section Sound.
@@ -177,6 +178,8 @@ Section C03.
       cbn zeta in A1, A2. rewrite <- Est in A1, A2. cbn [epochs wasted pc_st1 set_epochs] in A1, A2.
       assert (Hnr : relevant c scene epoch t = false).
       { unfold epoch, pc_epoch. apply expired_not_relevant. rewrite A1 in Hex. exact Hex. }
+      assert (Hnr' : relevant c scene (epoch_of (epochs st) scene + 1) t = false).
+      { rewrite <- Hnr. unfold epoch, pc_epoch, p. rewrite epochs_prologue. reflexivity. }
       pose proof (Inv_NoDup_ids _ _ HI) as Hnd. pose proof (Inv_NoDup_live _ _ HI) as Hndl.
       assert (Hrec : ~ In (t_id t) (map r_id recs)).
       { intro Hi. apply in_map_iff in Hi. destruct Hi as [r [Er Hrin]].
